@@ -741,6 +741,28 @@ func runDaemonInterchange(t *testing.T, rc *RunCtx, prop string) {
 		}
 		released[pop.Accts[k].KName] = w
 	}
+	// Half of the runs: every key signs once more, further on (its records are replaced, not just written).
+	if ch.Pick(2, 0) == 1 {
+		for k := 0; k < nKeys; k++ {
+			w := released[pop.Accts[k].KName]
+			if w.Tgt >= 0 {
+				uniq++
+				src, tgt := uint64(w.Src)+uint64(ch.Pick(2, 0)), uint64(w.Tgt)+1+uint64(ch.Pick(5, 0))
+				if (&Op{Kind: "att", Entries: []Entry{AttEntry(k, src, tgt, uniq)}}).ExecVia(context.Background(), pop.Population, api).OK(0) {
+					w.Src, w.Tgt = int64(src), int64(tgt)
+				}
+			}
+			if w.Slot >= 0 {
+				uniq++
+				slot := uint64(w.Slot) + 1 + uint64(ch.Pick(50, 0))
+				if (&Op{Kind: "prop", Entries: []Entry{PropEntry(k, slot, uniq)}}).ExecVia(context.Background(), pop.Population, api).OK(0) {
+					w.Slot = int64(slot)
+				}
+			}
+			released[pop.Accts[k].KName] = w
+		}
+		rc.Stats.Inc("daemon_interchange_runs_with_replaced_records", 1)
+	}
 	cwd := func(tag string) string { return filepath.Join(d.Base, "shell-"+tag) }
 	// A third of the C10 runs: the operator runs the import while the daemon is still up.  Refused (the storage is in use)
 	// or carried out, an import that reports success binds the daemon that is running.
